@@ -15131,6 +15131,41 @@ let step_discard f =
         | None -> None)
   else Some (None, (finish f))
 
+(** val step_discard_at :
+    z -> decompressor -> (berror option * decompressor) option **)
+
+let step_discard_at held f =
+  let s = f.state in
+  let discardSize =
+    Z.sub (Z.sub (Z.of_N f.peekSize) (Z.of_N s.rd.r_inlen)) held
+  in
+  let finish = fun f0 ->
+    set_state f0
+      (set_inputNil (set_rd f0.state (br_set_in f0.state.rd [] N0)) true)
+  in
+  if Z.ltb Z0 discardSize
+  then (match bDiscard f.rBuf (Z.to_N discardSize) with
+        | Some p ->
+          let (o, rb) = p in
+          (match o with
+           | Some e ->
+             Some ((Some e), { state = f.state; writePos = f.writePos;
+               readPos = f.readPos; hist = f.hist; rBuf = rb; derr = f.derr;
+               peekSize = f.peekSize; eof = f.eof; haveBits = f.haveBits })
+           | None ->
+             Some (None,
+               (finish { state = f.state; writePos = f.writePos; readPos =
+                 f.readPos; hist = f.hist; rBuf = rb; derr = f.derr;
+                 peekSize = f.peekSize; eof = f.eof; haveBits = f.haveBits })))
+        | None -> None)
+  else Some (None, (finish f))
+
+(** val held_nonneg : decompressor -> z **)
+
+let held_nonneg f =
+  let bl = f.state.rd.r_len in
+  if Z.ltb Z0 bl then Z.quot bl (Zpos (XO (XO (XO XH)))) else Z0
+
 (** val step : decompressor -> decompressor * rres option **)
 
 let step f =
@@ -15236,7 +15271,7 @@ let step f =
                 | EFuel -> (f4, (Some RStuck))
                 | _ ->
                   if (||) (isError e) ((&&) (ierr_eqb e EEndInput) f4.eof)
-                  then (match step_discard f4 with
+                  then (match step_discard_at (held_nonneg f4) f4 with
                         | Some p0 ->
                           let (o0, f5) = p0 in
                           (match o0 with
@@ -15298,7 +15333,7 @@ let step f =
                 | EFuel -> (f4, (Some RStuck))
                 | _ ->
                   if (||) (isError e) ((&&) (ierr_eqb e EEndInput) f4.eof)
-                  then (match step_discard f4 with
+                  then (match step_discard_at (held_nonneg f4) f4 with
                         | Some p0 ->
                           let (o0, f5) = p0 in
                           (match o0 with
